@@ -8,7 +8,7 @@ import itertools
 import json
 import os
 
-from vf import core, domain, env, trees
+from vf import core, domain, env, procs, trees
 
 ID = "C10"
 LEVEL = "exploration"
@@ -35,6 +35,48 @@ def cases(tier, seed):
     n = 90 if tier == "quick" else 3000
     for i in range(n):
         yield {"seed": seed, "idx": i}
+    for i in range(8):
+        yield {"kind": "versions", "seed": seed, "idx": i}
+
+
+def versions_child(arg):
+    """A sub-call memoized while its callee had one version is found in the store by a caller that reaches the callee's
+    next version as well: both versions were invoked beneath that caller."""
+    import twosigma.memento as m
+    from vf import tfuncs
+
+    store = env.mem_backend() if arg["store"] == "memory" else env.fs_backend(os.path.join(arg["root"], "d"), cache_mb=arg["cache"])
+    env.set_env(os.path.join(arg["root"], "env"), default_storage=store, clusters={"c": env.mem_backend()})
+    tid = "TV"
+    tfuncs.TREES[tid] = {"id": tid, "nodes": [{"fn": 0, "steps": [["call", 1, 1], ["call", 2, 2]] if arg["order"] else [["call", 2, 2], ["call", 1, 1]]},
+                                             {"fn": 1, "steps": [["call", 2, 3]]}, {"fn": 2, "steps": []}, {"fn": 2, "steps": []}]}
+    tfuncs.t1(tid, 1)
+    # the callee is released under another explicit version (its definition is run again in this process)
+    new = m.memento_function(version="t2")(tfuncs.t2.fn)
+    tfuncs.FUN.fns[2] = new
+    tfuncs.t2 = new
+    tfuncs.t0(tid, 0)
+    return {"root": record_of(tfuncs.t0.memento(tid, 0)), "inner": record_of(tfuncs.t1.memento(tid, 1))}
+
+
+def run_versions(case):
+    out = {"viol": [], "nontrivial": [], "obs": collections.Counter(), "sets": {"step_kinds": set()}}
+    with env.Scratch() as sc:
+        arg = {"root": sc.path("v"), "store": ["fs", "memory"][case["idx"] % 2], "cache": [None, 16][(case["idx"] // 2) % 2],
+               "order": (case["idx"] // 4) % 2}
+        res = procs.in_child(versions_child, arg)
+        out["obs"]["histories_with_two_versions_of_a_callee"] += 1
+        want = {"root": ["vf.tfuncs:t0#t", "vf.tfuncs:t1#t", "vf.tfuncs:t2#t", "vf.tfuncs:t2#t2"], "inner": ["vf.tfuncs:t1#t", "vf.tfuncs:t2#t"]}
+        for who in ("root", "inner"):
+            out["obs"]["records_compared"] += 1
+            if res[who]["deps"] != want[who]:
+                out["viol"].append({"sig": "recorded dependency set differs from the functions invoked transitively",
+                                    "msg": "a callee (t2) released under a second version between a memoized sub-call and its caller's run (%s): "
+                                           "%s recorded %s expected %s" % (arg, who, res[who]["deps"], want[who])})
+        out["nontrivial"].append("versions:%d" % case["idx"])
+    out["obs"] = dict(out["obs"])
+    out["sets"] = {k: sorted(v) for k, v in out["sets"].items()}
+    return out
 
 
 def fn_of(e):
@@ -70,6 +112,8 @@ def expected_of(e):
 
 
 def run_case(case):
+    if case.get("kind") == "versions":
+        return run_versions(case)
     from vf import tfuncs
     from vf.recorder import REC
 
